@@ -155,46 +155,156 @@ def case_isometry_to(case):
 # ------------------------------------------------------------------------------------------
 # point_along, unit_tangent_towards
 # ------------------------------------------------------------------------------------------
+# packagings of a scalar distance / radius / angle: the same number as a Python or NumPy scalar or a 0-d array
+INT_PACKS = ["int", "np.int64", "np.int32", "0d-int64", "0d-int32"]
+FLOAT_PACKS = ["float", "np.float64", "np.float32", "0d-float64", "0d-float32"]
+TI = [-2, 1, 3]                  # integer-valued distances (-2.0 is the integer-valued member of TS): every packaging
+TF = [-0.75, 0.5, 1.5]           # exactly representable in float32: the float packagings
+ARRAY_DTYPES = ["int64", "int32", "float64", "float32"]
+
+
+def package(val, pack):
+    if pack == "float":
+        return float(val)
+    if pack == "int":
+        return int(val)
+    head, dt = pack.split("-") if pack.startswith("0d-") else pack.split(".")
+    dt = np.dtype(dt)
+    val = int(val) if dt.kind == "i" else float(val)
+    return np.array(val, dtype=dt) if head == "0d" else dt.type(val)
+
+
+def pack_class(pack):
+    """Coarse packaging class for finding keys."""
+    if pack in ("float", "int"):
+        return "python-" + pack
+    return "numpy-integer" if "int" in pack else ("float32" if "float32" in pack else "numpy-float64")
+
+
+def low_factor(pack):
+    """float32 numbers are exact here, but NumPy evaluates exp / tanh / sinh of a float32 in float32 (6e-8 relative)."""
+    return 1e4 if "float32" in pack else 1.0
+
+
+def judge_along(data, d_lib, P_row, Q_row, tt, F, v, who, cls, prefix="point_along"):
+    """The point with homogeneous row(s) `data`, claimed to lie at signed distance tt (float or array) from [P_row]
+    along the geodesic towards [Q_row]; d_lib = the library's distance from the base point.  F scales the tolerances."""
+    tt = np.asarray(tt, dtype=float)
+    want = hyp.geodesic_point(P_row, Q_row, tt[..., None] if tt.ndim else float(tt))
+    data = np.asarray(data)
+    if data.shape != want.shape or data.dtype.kind != "f" or not np.all(np.isfinite(data)):
+        v.append({"key": prefix + "/type", "msg": "%s: data %r of shape %r dtype %s" % (who, data.tolist(), data.shape, data.dtype)})
+        return False
+    # distance |t| from the base point: oracle metric on the data, and the library's distance
+    d_or = np.asarray(hyp.dist_projective(data, P_row), dtype=float)
+    d_lib = np.asarray(d_lib, dtype=float)
+    tol = TOL * F * (1.0 + np.abs(tt)) * (np.cosh(tt) ** 2 if F > 1 else 1.0)
+    if d_lib.shape != tt.shape or not (np.all(np.abs(d_or - np.abs(tt)) <= tol) and np.all(np.abs(d_lib - np.abs(tt)) <= tol)):
+        v.append({"key": prefix + "/distance/%s" % cls,
+                  "msg": "%s lies at distance %r (library distance %r) from the base point" % (who, d_or.tolist(), d_lib.tolist())})
+        return False
+    e = float(np.max(hyp.proj_diff(data, want)))
+    if not e <= TOL * F:
+        other = float(np.max(hyp.proj_diff(data, hyp.geodesic_point(P_row, Q_row, -tt[..., None] if tt.ndim else -float(tt)))))
+        v.append({"key": prefix + "/%s/%s" % ("wrong-side" if other <= TOL * F else "off-geodesic", cls),
+                  "msg": "%s = Klein %r, the geodesic point is %r" % (
+                      who, hyp.to_klein("projective", data).tolist(), hyp.to_klein("projective", want).tolist())})
+        return False
+    return True
+
+
 def case_point_along(case):
     from geometry_tools import hyperbolic as H
     n, kp, kq = case["n"], np.asarray(case["p"], dtype=float), np.asarray(case["q"], dtype=float)
     D = hyp.unit_direction(proj(kp), proj(kq))
     v = []
     t = 0
+    # "packs": the packaged-distance section (integer-valued t in every packaging, float32-exact t in the float ones)
+    if case.get("packs"):
+        combos = [(tt, pk) for tt in TI for pk in INT_PACKS + FLOAT_PACKS] + [(tt, pk) for tt in TF for pk in FLOAT_PACKS]
+        mus = (1.0,)
+    else:
+        combos = [(tt, "float") for tt in TS]
+        mus = (1.0, 2.0)
+    kinds = set()
     for lam in REPS:
-        for mu in (1.0, 2.0):
-            for tt in TS:
+        for mu in mus:
+            for tt, pk in combos:
                 tv = make_tv(proj(kp, lam), D, mu)
                 if mu != 1.0:
                     tv = tv.normalized()
                     t += 1
-                x = tv.point_along(tt)
+                arg = package(tt, pk)
+                x = tv.point_along(arg)
                 t += 1
-                who = "H^%d unit tangent at %r towards %r: point_along(%r)" % (n, proj(kp, lam).tolist(), kq.tolist(), tt)
-                cls = repclass(lam)
+                who = "H^%d unit tangent at %r towards %r: point_along(%r)%s" % (
+                    n, proj(kp, lam).tolist(), kq.tolist(), arg, "" if pk == "float" else " [distance given as %s]" % pk)
+                cls = repclass(lam) + ("" if pk == "float" else "/" + pack_class(pk))
                 data = np.asarray(x.proj_data)
                 if data.shape != (n + 1,) or not np.all(np.isfinite(data)):
                     v.append({"key": "point_along/type", "msg": "%s: data %r" % (who, data.tolist())})
                     continue
-                # distance |t| from the base point: oracle metric on the data, and the library's distance
-                d_or = float(hyp.dist_projective(data, proj(kp)))
                 with warnings.catch_warnings():
                     warnings.simplefilter("ignore")
                     d_lib = float(H.Point(proj(kp, lam)).distance(x))
                 t += 1
-                tol = TOL * (1.0 + abs(tt))
-                if not (abs(d_or - abs(tt)) <= tol and abs(d_lib - abs(tt)) <= tol):
-                    v.append({"key": "point_along/distance/%s" % cls,
-                              "msg": "%s lies at distance %.12g (library distance %.12g) from the base point" % (who, d_or, d_lib)})
-                    continue
-                want = hyp.geodesic_point(proj(kp), proj(kq), tt)
-                e = float(hyp.proj_diff(data, want))
-                if not e <= TOL:
-                    other = float(hyp.proj_diff(data, hyp.geodesic_point(proj(kp), proj(kq), -tt)))
-                    v.append({"key": "point_along/%s/%s" % ("wrong-side" if other <= TOL else "off-geodesic", cls),
-                              "msg": "%s = Klein %r, the geodesic point is %r" % (
-                                  who, hyp.to_klein("projective", data).tolist(), hyp.to_klein("projective", want).tolist())})
+                judge_along(data, d_lib, proj(kp), proj(kq), float(tt), low_factor(pk), v, who, cls)
+                kinds.add(str(data.dtype))
+    if case.get("packs"):
+        seen, uniq = set(), []
+        for x in v:
+            if x["key"] not in seen:
+                seen.add(x["key"])
+                uniq.append(x)
+        return {"v": uniq[:8], "t": t, "o": "%d/%.2f/%s" % (n, float(hyp.dist_klein(kp, kq)), "+".join(sorted(kinds))), "nt": True}
     return {"v": v[:4], "t": t, "o": "%d/%.2f" % (n, float(hyp.dist_klein(kp, kq))), "nt": True}
+
+
+def case_point_along_composite(case):
+    """A composite unit tangent vector of the given shape; the distance as a scalar (every packaging: it is broadcast)
+    and as an ndarray of the composite shape (integer and float dtypes), one distance per unit."""
+    from geometry_tools import hyperbolic as H
+    n, shape = case["n"], tuple(case["shape"])
+    count = int(np.prod(shape))
+    us = [case["units"][i % len(case["units"])] for i in range(count)]
+    Pr = np.stack([proj(k) for (k, kq, lam) in us]).reshape(shape + (n + 1,))
+    Qr = np.stack([proj(kq) for (k, kq, lam) in us]).reshape(shape + (n + 1,))
+    lam = np.array([lam for (k, kq, lam) in us]).reshape(shape + (1,))
+    Dg = hyp.unit_direction(Pr, Qr)
+    sg = np.where(lam < 0, -1.0, 1.0)
+
+    def fresh():
+        return H.TangentVector(H.Point(lam * Pr), sg * Dg)
+
+    v, t = [], 0
+    args = [("scalar " + pk, package(tt, pk), float(tt), low_factor(pk), pack_class(pk)) for tt in TI[:2] for pk in INT_PACKS + FLOAT_PACKS]
+    args += [("scalar " + pk, package(tt, pk), float(tt), low_factor(pk), pack_class(pk)) for tt in TF[:2] for pk in FLOAT_PACKS]
+    for dt in ARRAY_DTYPES:
+        alphabet = (TI + [2, -1]) if dt.startswith("int") else (TI + TF)
+        for off in (0, 2):
+            vals = np.array([alphabet[(i + off) % len(alphabet)] for i in range(count)]).reshape(shape)
+            args.append(("%s array of shape %r" % (dt, shape), vals.astype(dt), vals.astype(float), low_factor(dt), "array-" + pack_class(dt)))
+    for label, arg, tt, F, pcls in args:
+        tv = fresh()
+        x = tv.point_along(arg)
+        t += 2
+        who = "H^%d composite unit tangent vector of shape %r (base points Klein %r): point_along(%r) [%s]" % (
+            n, shape, [u[0] for u in us[:2]], np.asarray(arg).tolist(), label)
+        data = np.asarray(x.proj_data)
+        if data.shape != shape + (n + 1,) or not np.all(np.isfinite(data)):
+            v.append({"key": "point_along/composite/type", "msg": "%s: data of shape %r" % (who, data.shape)})
+            continue
+        with warnings.catch_warnings():
+            warnings.simplefilter("ignore")
+            d_lib = np.asarray(H.Point(lam * Pr).distance(x))
+        t += 1
+        judge_along(data, d_lib, Pr, Qr, np.broadcast_to(tt, shape), F, v, who, pcls, prefix="point_along/composite")
+    seen, uniq = set(), []
+    for x in v:
+        if x["key"] not in seen:
+            seen.add(x["key"])
+            uniq.append(x)
+    return {"v": uniq[:8], "t": t, "o": "%d/%r/%d" % (n, shape, len(uniq)), "nt": True}
 
 
 def case_tangent_towards(case):
@@ -302,17 +412,23 @@ def oracle_angle(ns, r):
 def case_polygon(case):
     from geometry_tools import hyperbolic as H
     ns, mode, val, dim = case["sides"], case["mode"], case["value"], case["dimension"]
+    pack = case.get("pack", "float")
+    arg = package(val, pack)                     # the same number as a Python / NumPy scalar or 0-d array
+    val = float(val)
+    F = low_factor(pack)
+    TOL = globals()["TOL"] * F
     v = []
     kw = {} if dim == 2 else {"dimension": dim}
     if mode == "angle":
-        poly = H.Polygon.regular_polygon(ns, angle=val, **kw)
+        poly = H.Polygon.regular_polygon(ns, angle=arg, **kw)
         a, r = val, oracle_radius(ns, val)
     else:
-        poly = H.Polygon.regular_polygon(ns, radius=val, **kw)
+        poly = H.Polygon.regular_polygon(ns, radius=arg, **kw)
         a, r = oracle_angle(ns, val), val
     t = 1
-    who = "regular_polygon(%d, %s=%r%s)" % (ns, mode, val, "" if dim == 2 else ", dimension=%d" % dim)
-    cls = "by-" + mode
+    who = "regular_polygon(%d, %s=%r%s)%s" % (ns, mode, arg, "" if dim == 2 else ", dimension=%d" % dim,
+                                               "" if pack == "float" else " [%s given as %s]" % (mode, pack))
+    cls = "by-" + mode + ("" if pack == "float" else "/" + pack_class(pack))
     verts = poly.get_vertices()
     K = np.asarray(verts.coords("klein"))
     t += 2
@@ -355,7 +471,7 @@ def case_polygon(case):
         v.append({"key": "polygon/edges/%s" % cls, "msg": "%s: edges do not join consecutive vertices" % who})
     # the two formulas
     if mode == "angle":
-        rl = H.regular_polygon_radius(ns, val)
+        rl = H.regular_polygon_radius(ns, arg)
         back = H.polygon_interior_angle(ns, rl)
         t += 2
         if not abs(float(rl) - r) <= TOL * (1 + r):
@@ -364,7 +480,7 @@ def case_polygon(case):
             v.append({"key": "polygon/formulas-inverse/angle-radius-angle",
                       "msg": "polygon_interior_angle(%d, regular_polygon_radius(%d, %r)) = %.12g" % (ns, ns, val, float(back))})
     else:
-        al = H.polygon_interior_angle(ns, val)
+        al = H.polygon_interior_angle(ns, arg)
         back = H.regular_polygon_radius(ns, al)
         t += 2
         if not abs(float(al) - a) <= TOL:
@@ -372,7 +488,7 @@ def case_polygon(case):
         if not abs(float(back) - val) <= TOL * (1 + val) * math.cosh(val) ** 2:
             v.append({"key": "polygon/formulas-inverse/radius-angle-radius",
                       "msg": "regular_polygon_radius(%d, polygon_interior_angle(%d, %r)) = %.12g" % (ns, ns, val, float(back))})
-    return {"v": v, "t": t, "o": "%d/%d/%s/%.4f/%.4f" % (ns, dim, mode, r, a), "nt": True}
+    return {"v": v, "t": t, "o": "%d/%d/%s/%.4f/%.4f/%s" % (ns, dim, mode, r, a, pack), "nt": True}
 
 
 # ------------------------------------------------------------------------------------------
@@ -566,7 +682,12 @@ def run(ctx):
     ctx.assume("tangent vectors handed to the library are Minkowski-orthogonal to their base point; (p, v) and (-p, -v) denote "
                "the same tangent vector, whose geometric direction is sign(p_0) v")
     ctx.assume("points are interior with Klein radius <= 0.9, distinct for directions; float coordinates")
-    ctx.assume("regular_polygon is called with Python-float scalar angle or radius only; angle in (0, (n-2)pi/n)")
+    ctx.assume("regular_polygon is called with a scalar angle or radius only (Python float / int, NumPy float64 / float32 / int64 / int32 "
+               "scalars and 0-d arrays; no int8/int16, whose exp NumPy evaluates in half/single precision); angle in (0, (n-2)pi/n)")
+    ctx.assume("distances t are real numbers packaged as Python float / int, NumPy float64 / float32 / int64 / int32 scalars or 0-d arrays, "
+               "or (composite tangent vectors) ndarrays of those dtypes of the composite shape")
+    ctx.tolerances["float32 parameters"] = ("a distance / radius / angle given as float32 is an exact number, but NumPy evaluates exp, sinh, "
+                                            "arcsin of it in float32: all tolerances x 1e4 (x cosh^2 t for the distance of point_along), measured 1e-7")
     ctx.tolerances["projective equality"] = "1e-9 on Euclidean-normalised rows (measured 1e-15)"
     ctx.tolerances["distances"] = "1e-9*(1+|t|); polygon distances 1e-9*(1+r)*cosh(r)^2 (vertices at Klein radius tanh r <= 0.987)"
     ctx.tolerances["angles"] = "|cos(angle) - cos(oracle)| <= 1e-9 (polygons: 1e-9*cosh(r)^2); for parallel directions additionally |angle - oracle| <= 1e-6 (arccos near +-1)"
@@ -592,6 +713,24 @@ def run(ctx):
     ctx.product("isometry-to", "checks.c13:case_isometry_to", iso_cases, chunk=8,
                 domains=dict(dom, force_oriented=["default", True, False], note="tv_i at p_i towards p_(i+1); all ordered pairs (tv_i, tv_j)"))
     ctx.product("point-along", "checks.c13:case_point_along", pairs, chunk=8, domains=dict(dom, t=TS))
+    # packaged distances: every point with two partners; composite tangent vectors with scalar and array distances
+    ppairs = [{"n": n, "p": lat[n][i], "q": lat[n][(i + s) % len(lat[n])], "packs": True}
+              for n in dims for i in range(len(lat[n])) for s in (1, 3)]
+    ctx.product("point-along-packaged-distance", "checks.c13:case_point_along", ppairs, chunk=4,
+                domains=dict(dom, integer_valued_t=TI, float32_exact_t=TF, integer_packagings=INT_PACKS, float_packagings=FLOAT_PACKS,
+                             note="integer-valued t in all 10 packagings, the other t in the 5 float packagings; pairs (p_i, p_(i+1)), (p_i, p_(i+3))"))
+    comp = []
+    for n in dims:
+        L = lat[n]
+        N = len(L)
+        for c in range(6):
+            units = [[L[(3 * c + 2 * j + 1) % N], L[(3 * c + 2 * j + 2) % N], REPS[(c + j) % 4]] for j in range(5)]
+            for shape in ([3], [2, 2], [1], [2, 1, 2]):
+                comp.append({"n": n, "shape": shape, "units": units})
+    ctx.product("point-along-composite", "checks.c13:case_point_along_composite", comp, chunk=2,
+                domains=dict(dom, shapes=[[3], [2, 2], [1], [2, 1, 2]], configurations_per_dimension=6,
+                             scalar_distances="t in %r x all packagings, t in %r x float packagings (broadcast over the composite)" % (TI[:2], TF[:2]),
+                             array_distances="ndarrays of the composite shape, dtypes %r, entries cycling through the t alphabet (two offsets)" % (ARRAY_DTYPES,)))
     ctx.product("unit-tangent-towards", "checks.c13:case_tangent_towards", pairs, chunk=8,
                 domains=dict(dom, note="all 16 representative pairs of (p, q)"))
     ctx.product("angles", "checks.c13:case_angle", [{"n": n, "a": a, "pts": lat[n]} for n in dims for a in lat[n]],
@@ -610,9 +749,21 @@ def run(ctx):
             for dim in ((3,) if q else (3, 4, 5)):
                 poly.append({"sides": ns, "mode": "angle", "value": 0.5 * amax, "dimension": dim})
                 poly.append({"sides": ns, "mode": "radius", "value": 1.0, "dimension": dim})
+    # integer-valued radius 1, 2 and angle 1 (admissible for every n >= 3: 1 < pi/3) in every scalar packaging
+    for ns in range(3, 13):
+        for dim in (2, 3):
+            for pk in INT_PACKS + FLOAT_PACKS[1:]:
+                poly.append({"sides": ns, "mode": "radius", "value": 1, "dimension": dim, "pack": pk})
+                poly.append({"sides": ns, "mode": "radius", "value": 2, "dimension": dim, "pack": pk})
+                poly.append({"sides": ns, "mode": "angle", "value": 1, "dimension": dim, "pack": pk})
+    for ns in (3, 4, 7, 12):
+        for dim in (4, 5):
+            for pk in ("int", "np.int64", "0d-int32"):
+                poly.append({"sides": ns, "mode": "radius", "value": 2, "dimension": dim, "pack": pk})
     ctx.product("regular-polygons", "checks.c13:case_polygon", poly, chunk=2,
                 domains={"n_sides": "3..12", "angle fractions of (n-2)pi/n": [0.1, 0.3, 0.5, 0.7, 0.9], "radii": [0.3, 1.0, 2.5],
-                         "dimension": [2, 3] if q else [2, 3, 4, 5]})
+                         "dimension": [2, 3] if q else [2, 3, 4, 5],
+                         "integer-valued radius 1, 2 / angle 1": "packaged as %r, dimensions 2, 3 (radius 2 also in 4, 5)" % (INT_PACKS + FLOAT_PACKS[1:],)})
 
     hdepth = 3
     roots = history_roots(lat, dims, 3 if q else 8)
